@@ -700,7 +700,15 @@ class RequestHandler(BaseProtocol, Generic[_Request]):
             resp = self.handle_error(request, 504)
             resp, reset = await self.finish_response(request, resp, start_time)
         except Exception as exc:
-            resp = self.handle_error(request, 500, exc)
+            cause = exc.__cause__
+            if isinstance(exc, RequestPayloadError) and isinstance(
+                cause, HttpProcessingError
+            ):
+                # Malformed request body: the client's fault, same answer as
+                # when the parser rejects it before the handler is running.
+                resp = self.handle_error(request, 400, exc, cause.message)
+            else:
+                resp = self.handle_error(request, 500, exc)
             resp, reset = await self.finish_response(request, resp, start_time)
         else:
             try:
